@@ -119,21 +119,23 @@ partial def parseAnnotations (acc : Anns := []) : P Anns := do
     parseAnnotations (acc ++ [(key, value)])
   else pure acc
 
+/-- `parsePathRest`: { '::' IDENT } after the first component -/
+partial def parsePathRest (path : String) : P String := do
+  if (← peekTok) = .dcolon then
+    advanceTok
+    match ← peekTok with
+    | .ident s => do advanceTok; parsePathRest (path ++ "::" ++ s)
+    | _ => throw "expected identifier after '::'"
+  else pure path
+
 /-- `parsePath`: IDENT { '::' IDENT }, `__cedar` allowed as first component -/
-partial def parsePath : P String := do
+def parsePath : P String := do
   let first ← match ← peekTok with
     | .ident s => pure s
     | .reserved "__cedar" => pure "__cedar"
     | _ => throw "expected identifier"
   advanceTok
-  let rec more (path : String) : P String := do
-    if (← peekTok) = .dcolon then
-      advanceTok
-      match ← peekTok with
-      | .ident s => do advanceTok; more (path ++ "::" ++ s)
-      | _ => throw "expected identifier after '::'"
-    else pure path
-  more first
+  parsePathRest first
 
 /-- `parseName`: IDENT | STR | `__cedar` -/
 def parseName : P String := do
@@ -153,10 +155,13 @@ partial def parseType : P Ty := do
   | .lbrace => do pure (.record (← parseRecordType))
   | .ident "Set" => do
     advanceTok
-    expectTok .langle
-    let e ← parseType
-    expectTok .rangle
-    pure (.set e)
+    -- `Set` is no keyword: without '<' it is the first component of a path (an entity type or namespace called Set)
+    if (← peekTok) ≠ .langle then pure (.typeRef (← parsePathRest "Set"))
+    else
+      expectTok .langle
+      let e ← parseType
+      expectTok .rangle
+      pure (.set e)
   | _ => do pure (.typeRef (← parsePath))
 /-- `parseRecordType` (a later attribute of the same name replaces the earlier one, as the Go map does) -/
 partial def parseRecordType : P Attrs := do
@@ -321,6 +326,7 @@ partial def parseDecl (anns : Anns) (d : Namespace) : P Namespace := do
           loop (acc ++ [v])
         | _ => throw "expected string literal in enum"
       let values ← loop []
+      if values.isEmpty then throw "an enum entity type needs at least one value"
       advanceTok
       expectTok .semi
       StateT.lift (addEnums d names { anns := anns, values := values })
